@@ -567,10 +567,123 @@ def mode_stress(data):
     return out
 
 
+# ------------------------------------------------------------------ free-running traces (pattern T)
+def mode_trace(data):
+    """records free-running inspect_frame calls on the frame of a thread that never stops, one trace per call, for
+    validation against FrameSnapshotTrace.tla.  The sink reads the target's f_lasti at every probe."""
+    import dis
+    seconds = data.get("seconds", 3)
+    max_traces = data.get("max_traces", 3000)
+    old = sys.getswitchinterval()
+    sys.setswitchinterval(1e-6)
+    stop = threading.Event()
+    box = {}
+    lock = threading.Lock()
+
+    def spin():
+        box["frame"] = sys._getframe(0)
+        n = 0
+        while not stop.is_set():
+            with CM(n):
+                n += helper(n)
+                lock.acquire()          # C-level calls made by this very frame: it is then 'executing', stacktop unknown
+                lock.release()
+            n += helper(n)
+            lock.acquire()
+            lock.release()
+
+    def helper(n):
+        with CM(n):
+            return 1
+    t = threading.Thread(target=spin, daemon=True)
+    t.start()
+    while "frame" not in box:
+        time.sleep(0.001)
+    frame = box["frame"]
+    code = frame.f_code
+    table = [(e.start, e.end, e.depth) for e in dis._parse_exception_table(code)]
+
+    def hd_at(lasti):
+        for start, end, depth in table:
+            if start <= lasti < end:
+                return depth
+        return 0
+    events = []
+
+    def sink(name, f):
+        if f.get("frame") is not frame:
+            return
+        if name == "snap_lasti":
+            ev = {"e": "lasti", "lasti": f["lasti"], "depth": f["depth"]}
+        elif name == "snap_deref":
+            ev = {"e": "deref"}
+        elif name == "snap_header":
+            ev = {"e": "header", "n": f["stack_len"], "unknown_top": f["stacktop"] == -1, "owned": f["owner"] == 2}
+        elif name == "snap_slot":
+            ev = {"e": "slot", "i": f["i"]}
+        elif name == "snap_final":
+            ev = {"e": "final"}
+        elif name == "snap_retry":
+            ev = {"e": "retry"}
+        else:
+            return
+        events.append(ev)
+        # LAST statement, with no call after it: the interpreter hands the GIL over only at calls and backward jumps, so
+        # the re-check that follows the probe in inspect_frame reads this very value
+        ev["seen"] = frame.f_lasti
+    out = {"traces": [], "calls": 0, "with_retry": 0, "giveup": 0, "raised": 0, "unknown_top": 0, "bad": []}
+    if not _verif.ENABLED:
+        out["bad"].append("harness: probes are not enabled")
+        return out
+    plain = []
+    deadline = time.time() + seconds
+    _verif.sink = sink
+    try:
+        while time.time() < deadline:
+            del events[:]
+            try:
+                d = lowlevel.inspect_frame(frame)
+                end = {"e": "end", "result": "ok", "nstack": len(d.stack)}
+            except RuntimeError:
+                end = {"e": "end", "result": "giveup", "nstack": 0}
+                out["giveup"] += 1
+            except AssertionError:
+                end = {"e": "end", "result": "raised", "nstack": 0}
+                out["raised"] += 1
+            out["calls"] += 1
+            evs = list(events) + [end]
+            for e in evs:
+                for k, dflt in (("seen", 0), ("lasti", 0), ("depth", 0), ("n", 0), ("unknown_top", False), ("owned", False),
+                                ("i", 0), ("result", "-"), ("nstack", 0)):
+                    e.setdefault(k, dflt)
+            pos = sorted({e["lasti"] for e in evs if e["e"] == "lasti"})
+            tr = {"events": evs, "hd": [[p, hd_at(p)] for p in pos]}
+            if any(e["e"] == "header" and e["unknown_top"] for e in evs):
+                out["unknown_top"] += 1
+            if any(e["e"] == "retry" for e in evs):
+                out["with_retry"] += 1
+                out["traces"].append(tr)
+            else:
+                plain.append(tr)
+    finally:
+        _verif.sink = None
+        stop.set()
+        t.join(5)
+        sys.setswitchinterval(old)
+    # all traces with retries (the interesting ones) first, then a sample of the straight ones
+    out["traces"] = out["traces"][:max_traces]
+    room = max_traces - len(out["traces"])
+    if room > 0 and plain:
+        step = max(1, len(plain) // room)
+        out["traces"] += plain[::step][:room]
+    return out
+
+
 def main():
     mode = sys.argv[1]
     data = json.load(open(sys.argv[2]))
-    fn = {"snapshot": mode_snapshot, "f10": mode_f10, "unwrap": mode_unwrap, "blocked": mode_blocked, "stress": mode_stress}[mode]
+    fn = {"snapshot": mode_snapshot, "f10": mode_f10, "unwrap": mode_unwrap, "blocked": mode_blocked, "stress": mode_stress,
+          "trace": mode_trace}[mode]
     out = fn(data)
     json.dump(out, open(sys.argv[3], "w"))
 
